@@ -314,7 +314,7 @@ PROPS = {
         "level_note": "Trusted: the axiom schemas for str/re builtins (conformance-tested each run), "
                       "CPython's re engine, the encoding of Python semantics in DESIGN.md 2.3. "
                       "Not decided: 'valid templates are never rejected'; message formatting.",
-        "units": TOKEN + [K("k3::S-Strict-rejects"), K("k3::S-Deferred-twice"),
+        "units": TOKEN + [K("k3::S-Strict-rejects"), K("k3::S-Deferred-twice"), K("parser.py::match_tag"),
                           U('pyvc.frames', 'decorator_audit', 'decorator_audit')],
         "not_decided": ["'A template without such an error is never rejected' (needs a notion of "
                         "validity independent of the implementation)",
